@@ -96,6 +96,7 @@ def _replay_law(name, label, law):
             "nan": "bad = math.isnan(y) != math.isnan(x)",
             "mono_inc": "bad = x <= x2 and not (y <= y2 + tol)",
             "mono_dec": "bad = x <= x2 and not (y >= y2 - tol)",
+            "pyfloat": "bad = not same(float(t.membership(float(x))), float(t.membership(np.array(x))), 0.0)",
             "arrays": "xa = np.array([x, x2, x]); xb = np.array([[x, x2], [x2, x]]); r = t.membership(xa); r2 = t.membership(xb);"
                       " bad = not (same(r, [y, y2, y], 0.0) and same(r2, [[y, y2], [y2, y]], 0.0) and same(xa, [x, x2, x]) and same(xb, [[x, x2], [x2, x]]))\n"
                       "for A in (np.array([x]), np.array([[x]]), np.array([[x], [x2]]), np.array([[x, x2]])):\n"
@@ -151,6 +152,32 @@ def ob_range_nan(name):
             ob.prove(pre + [z3.Not(ZB(x.nan))], p, between(y, 0, h), f"{name}/R/range", ins, _replay_law(name, f"{name}/R/range", "range"))
             ob.prove(pre, p, ZB(y.nan) == ZB(x.nan), f"{name}/R/nan-iff", ins, _replay_law(name, f"{name}/R/nan-iff", "nan"))
             ob.expect_sat(pre, p, ZB(y.nan), f"{name}/R/nan/twin")
+
+    return run
+
+
+def ob_pyfloat(name):
+    """parameters, height and x given as plain Python floats (what user code and the replays pass): no exception that NumPy numbers
+    would not raise either (a Python float divides by zero with ZeroDivisionError), and the same value"""
+    def run(ob):
+        fl = install()
+        set_mode("R")
+        S.pyfloats = True
+        params, valid, mu, at_inf, mono = spec.TERMS[name]
+        P = sym_params(name)
+        h, x = rvar("h"), rvar("x", special=True)
+        Pv = {k: v.v for k, v in P.items()}
+        pre = [valid(Pv)] + hpre(h) + wf(x)
+        py = core.PyRFloat.of
+        tpy = mk(fl, name, {k: py(v) for k, v in P.items()}, py(h))
+        tnp = mk(fl, name, P, h)
+        label = f"{name}/R/python-floats"
+        rp = _replay_law(name, label, "pyfloat")
+        for p in ob.paths(pre, lambda: (tpy.membership(py(x)), tnp.membership(x))):
+            if p.exc is not None:
+                ob.unexpected(pre, p, label, _inputs(P, h, x), rp)
+                continue
+            ob.prove(pre, p, same(tf(p.result[0]), tf(p.result[1])), label, _inputs(P, h, x), rp)
 
     return run
 
@@ -685,6 +712,7 @@ def _obligations(tier, seed):
             obs.append((f"{name}/R/monotone", ob_mono(name)))
         obs.append((f"{name}/R/arrays", ob_arrays(name, tier)))
         obs.append((f"{name}/R/reuse", ob_reuse(name)))
+        obs.append((f"{name}/R/python-floats", ob_pyfloat(name)))
     obs.append(("flags/is_monotonic", ob_not_monotonic_flag))
     obs += special_cases()
     obs.append(("Constant/R/def", ob_constant))
